@@ -634,7 +634,10 @@ func (op *ShellOperator) taskHandleHookRun(t task.Task) queue.TaskResult {
 	}
 
 	// Unlock Kubernetes events for all monitors when Synchronization task is done.
-	if isSynchronization && res.Status == "Success" {
+	// A Synchronization task that failed and was then combined with a later task of its
+	// group may have lost its Synchronization context to compaction: it still carries
+	// the monitors to unlock.
+	if res.Status == "Success" && len(hookMeta.MonitorIDs) > 0 {
 		taskLogEntry.Info("Unlock kubernetes.Event tasks")
 		for _, monitorID := range hookMeta.MonitorIDs {
 			taskHook.HookController.UnlockKubernetesEventsFor(monitorID)
